@@ -278,6 +278,28 @@ def run(ctx):
                                 clause="'parse' prints the parsed spectrum (after the requested filters and exclusions); mock-data specifiers denote the same data set as generate_mock_data with those keyword arguments")
             if j == 0:
                 ctx.sample({"argv": inp["argv"], "first_numbers": got[:5]})
+        # several mock-data specifiers in ONE invocation, some sharing the identifier but not the keyword arguments: every one denotes
+        # its own data set
+        for j in range(6 if big else 2):
+            ident = rnd.choice(["CIRCUIT_1", "CIRCUIT_2", "R{R=100}(R{R=200}C{C=1e-6})"])
+            kwsets = [f"noise=0.5,seed={rnd.randint(1, 99)}", f"noise=0.5,seed={rnd.randint(100, 199)}", f"num_per_decade={rnd.randint(2, 5)}", "log_max_f=4,log_min_f=1,num_per_decade=3"]
+            specs = [f"<{ident}:{kw}>" for kw in rnd.sample(kwsets, rnd.randint(2, 3))]
+            argv = ["parse"] + specs + ["--output-format", "csv", "--suppress-progress"]
+            inp = {"argv": argv}
+            ctx.note_case(tuple(argv))
+            ctx.count("cli:parse:several-specifiers")
+            try:
+                text = run_cli(argv)
+                expected = []
+                for sp in specs:
+                    expected += df_numbers(api_data(sp).to_dataframe())
+                got = numbers_csv(text)
+            except Exception as x:  # noqa
+                ctx.add_failing("cli-raises", inp, observed=f"{type(x).__name__}: {x}"[:200], expected="output", clause="mock-data specifiers denote the same data set as generate_mock_data with those keyword arguments")
+                continue
+            if not close_lists(got, expected, 0.0, 0.0):
+                ctx.add_failing("parse-output-differs", inp, observed=f"{len(got)} numbers, first {got[:5]}", expected=f"{len(expected)} numbers, first {expected[:5]}",
+                                clause="mock-data specifiers denote the same data set as generate_mock_data with those keyword arguments")
         # circuit --simulate
         for j in range(12 if big else 4):
             cdc = rnd.choice(["R{R=100}(R{R=200}C{C=1e-6})", "R{R=10}(R{R=20}Q{Y=1e-4,n=0.8})", "R{R=1}L{L=1e-5}", "<CIRCUIT_3>"])
